@@ -49,6 +49,8 @@ pub enum NodeOp {
     Exit { raw: bool },
     /// spawn a compaction and _exit as soon as the new snapshot file has at least `bytes` bytes
     CrashInCompaction { bytes: u64 },
+    /// append a line to <data dir>/.marker (ordered with the file mutations by the LD_PRELOAD journal, E5)
+    Marker(String),
 }
 
 #[derive(Debug, Clone, Serialize, Deserialize)]
@@ -551,6 +553,16 @@ async fn exec(app: &Arc<AppShareData>, op: &NodeOp, spawned: &mut Vec<tokio::tas
             tokio::time::sleep(Duration::from_millis(*ms)).await;
             NodeRes::Ok
         }
+        NodeOp::Marker(m) => {
+            use std::io::Write;
+            match std::fs::OpenOptions::new().create(true).append(true).open(std::path::Path::new(data_dir).join(".marker")) {
+                Ok(mut f) => {
+                    let _ = f.write_all(format!("{}\n", m).as_bytes());
+                    NodeRes::Ok
+                }
+                Err(e) => NodeRes::Err(e.to_string()),
+            }
+        }
         NodeOp::Exit { .. } => NodeRes::Ok,
         NodeOp::CrashInCompaction { bytes } => {
             // remember existing snapshot files, spawn the compaction, exit when a new one is big enough
@@ -665,6 +677,11 @@ pub struct PhaseRun {
 }
 
 pub fn run_phase_child(work: &Path, tag: &str, phase: &Phase, timeout_s: u64) -> Result<PhaseRun, String> {
+    run_phase_child_env(work, tag, phase, timeout_s, &[])
+}
+
+/// same, with extra environment for the child (the C04 node tier records it under the LD_PRELOAD journal)
+pub fn run_phase_child_env(work: &Path, tag: &str, phase: &Phase, timeout_s: u64, envs: &[(String, String)]) -> Result<PhaseRun, String> {
     let pf = work.join(format!("phase-{}.json", tag));
     std::fs::write(&pf, serde_json::to_vec(phase).unwrap()).map_err(|e| e.to_string())?;
     std::fs::remove_file(&phase.result_file).ok();
@@ -676,6 +693,7 @@ pub fn run_phase_child(work: &Path, tag: &str, phase: &Phase, timeout_s: u64) ->
         .arg(&pf)
         .env("RUST_LOG", "error")
         .env_remove("LD_PRELOAD")
+        .envs(envs.iter().map(|(k, v)| (k.clone(), v.clone())))
         .stdout(std::process::Stdio::null())
         .stderr(err)
         .spawn()
